@@ -48,6 +48,9 @@ OpenClose == <<
   << << P("{%", ""), O, P("macro", "tag"), W, P("m", ""), P("(", ""), O, P("p", ""), O, P(")", ""), O, P("%}", "") >>, << P("{%", ""), O, P("endmacro", ""), O, P("%}", "") >> >>,
   << << P("{%", ""), O, P("filter", "tag"), W, P("up", ""), O, P("%}", "") >>, << P("{%", ""), O, P("endfilter", ""), O, P("%}", "") >> >>,
   << << P("{%", ""), O, P("set", "tag"), W, P("c", ""), O, P("%}", "") >>, << P("{%", ""), O, P("endset", ""), O, P("%}", "") >> >>,
+  (* a block inside an embed: its position is that of its own tag name, on whatever line it stands *)
+  << << P("{%", ""), O, P("embed", "tag"), W, P("'p'", "str"), O, P("%}", ""), PB(<<10, 32>>, ""), P("{%", ""), O, P("block", "tag"), W, P("b", ""), O, P("%}", "") >>,
+     << P("{%", ""), O, P("endblock", ""), O, P("%}", ""), P("{%", ""), O, P("endembed", ""), O, P("%}", "") >> >>,
   << << P("{%", ""), O, P("if", "tag"), W, P("x", "name"), O, P("%}", ""), P("t", "text"), P("{%", ""), O, P("else", ""), O, P("%}", "") >>,
      << P("{%", ""), O, P("endif", ""), O, P("%}", "") >> >>,
   << << P("{%", ""), O, P("if", "tag"), W, P("x", "name"), O, P("%}", ""), P("t", "text"), P("{%", ""), O, P("elseif", "tag"), W, P("a", "name"), O, P("%}", "") >>,
